@@ -365,7 +365,19 @@ func (r *Recorder) checkSnapshotContent(inc *Incarnation, md raft.SnapshotMetada
 		}
 	}
 	if len(missing) > 0 {
-		r.violate("C10", "snapshot-label-mismatch", r.tainted(inc.Node, "missing-entries-"+src, "F2", "F3"),
+		cause := r.tainted(inc.Node, "missing-entries-"+src, "F2", "F3")
+		if src == "installed" {
+			// An installed snapshot comes from another node, possibly forwarded by a node that holds
+			// a mixed file (F3) or a regressed state (F2): run-level attribution, and the receiver
+			// carries the taint on (its state machine now lacks those operations).
+			cause = r.taintedAny("missing-entries-"+src, "F2", "F3")
+			for _, t := range []string{"F2", "F3"} {
+				if r.anyTaint[t] {
+					r.setTaint(inc.Node, t)
+				}
+			}
+		}
+		r.violate("C10", "snapshot-label-mismatch", cause,
 			"%s: snapshot labelled %d/%d (%s) lacks committed operation(s) at %v", inc.Name(), label, md.LastIncludedTerm, src, missing)
 	}
 	if reg, ok := r.Reg[label]; ok && reg.Term != md.LastIncludedTerm {
